@@ -7,7 +7,7 @@
 (* parted (the model must be re-synchronised); it is never a verdict -     *)
 (* verdicts come from the Layer R predicates of Props.tla only.            *)
 (***************************************************************************)
-EXTENDS KnownFindings, Impl
+EXTENDS KnownFindings, Impl, ImplList
 
 Drift(layer, ok, who) == ok \/ PrintT(<<"DRIFT", layer, who>>)
 
@@ -56,5 +56,15 @@ ConfCrash(who) ==
   (pc = "crashed" /\ op \in CleanOps) =>
      LET r == ImplClean(file, cfg) IN Drift("ImplClean.crash", r.unknown \/ r.crash, who)
 
-ConfAll(who) == ConfTokens(who) /\ ConfTree(who) /\ ConfMarkers(who) /\ ConfOut(who) /\ ConfCrash(who)
+ItemsAgree(obs, impl) ==
+  /\ Len(obs) = Len(impl)
+  /\ \A i \in 1..Len(impl) : obs[i].lr = impl[i].lr /\ obs[i].block = impl[i].block /\ obs[i].status = impl[i].status
+
+ConfItems(who) ==
+  (pc = "returned" /\ op \in {"list_json", "list_all_json"}) =>
+     LET r == ImplMarkersAll(file, cfg, op = "list_all_json") IN
+     Drift("ImplList", r.unknown \/ r.crash \/ (\E i \in 1..Len(file) : file[i] = CR)
+                       \/ ItemsAgree(items, ImplItems(file, r.rows)), who)
+
+ConfAll(who) == ConfTokens(who) /\ ConfTree(who) /\ ConfMarkers(who) /\ ConfOut(who) /\ ConfCrash(who) /\ ConfItems(who)
 =============================================================================
